@@ -144,3 +144,86 @@ pub fn replay_text(ctx: &mut Ctx, tag: &str, case: &Value) -> Option<TextOutcome
         }
     }
 }
+
+/// like `check_text` for formulas with 7..16 names (bit-vector reference); returns true when
+/// the real evaluation agrees with the reference
+pub fn check_text_big(ctx: &mut Ctx, tag: &str, ast: &Ast, text: &str) -> bool {
+    ctx.begin_case(|| text_case(text));
+    ctx.count("evaluations", 1);
+    let key = || format!("{tag} text: {text}");
+    let p = match impl_parse(text) {
+        ImplParse::Ok(p) => p,
+        ImplParse::Err(e) => {
+            ctx.violation(key(), format!("well-formed formula rejected: {e}"), text_case(text));
+            return false;
+        }
+        ImplParse::Panic(m) => {
+            ctx.violation(key(), format!("parser panicked: {m}"), text_case(text));
+            return false;
+        }
+    };
+    if conv(&p.bdd).as_ref() != Some(ast) {
+        ctx.violation(key(), "text was not read as the tree the grammar assigns".into(), text_case(text));
+        return false;
+    }
+    let names = ast.names();
+    let sem = crate::bigsem::BigSem::new(&names);
+    let Some(want) = sem.eval(ast, &std::collections::BTreeMap::new()) else {
+        ctx.count("divergent_fixed_point_skipped", 1);
+        return false;
+    };
+    let res = match impl_eval(&p) {
+        Err(m) if m.contains(rsbdd::verif_hooks::FUEL_EXHAUSTED_MARKER) => {
+            ctx.violation(key(), format!("evaluation did not terminate within {DEFAULT_FUEL} fixed-point iterations although every fixed point converges in the reference model"), text_case(text));
+            return false;
+        }
+        Err(m) => {
+            ctx.violation(key(), format!("evaluation panicked: {m}"), text_case(text));
+            return false;
+        }
+        Ok(r) => r,
+    };
+    match sem.tt_named(&res) {
+        Err(e) => {
+            ctx.violation(key(), e, text_case(text));
+            false
+        }
+        Ok(got) => {
+            if got != want {
+                let a = (0..sem.n()).find(|a| crate::bigsem::BigSem::get(&got, *a) != crate::bigsem::BigSem::get(&want, *a)).unwrap_or(0);
+                ctx.violation(key(), format!("result differs from the documented meaning, e.g. under assignment {a:#b} of {:?} (bit i = i-th name): result {}, reference {}", names, crate::bigsem::BigSem::get(&got, a), crate::bigsem::BigSem::get(&want, a)), text_case(text));
+                return false;
+            }
+            let all = sem.konst(true);
+            let none = sem.konst(false);
+            if res.is_true() != (want == all) || res.is_false() != (want == none) {
+                ctx.violation(key(), "result is not the constant leaf although the formula is valid / unsatisfiable (or vice versa)".into(), text_case(text));
+                return false;
+            }
+            ctx.count("semantics_agree", 1);
+            true
+        }
+    }
+}
+
+/// k-bit counter reachability: a least fixed point that needs 2^k refinement rounds,
+///   lfp Z # ( s = 0 | exists t # ( s = t & exists s # ( Z & t = s + 1 ) ) )
+pub fn counter_reachability(k: usize) -> Ast {
+    use crate::refl::Bin;
+    let s: Vec<String> = (0..k).map(|i| format!("s{i}")).collect();
+    let t: Vec<String> = (0..k).map(|i| format!("t{i}")).collect();
+    let conj = |v: Vec<Ast>| v.into_iter().reduce(|a, b| Ast::bin(Bin::And, a, b)).unwrap_or(Ast::True);
+    let init = conj(s.iter().map(|v| Ast::not(Ast::var(v))).collect());
+    let same = conj((0..k).map(|i| Ast::bin(Bin::Iff, Ast::var(&s[i]), Ast::var(&t[i]))).collect());
+    let succ = conj(
+        (0..k)
+            .map(|i| {
+                let carry = conj((0..i).map(|j| Ast::var(&s[j])).collect());
+                Ast::bin(Bin::Iff, Ast::var(&t[i]), if i == 0 { Ast::not(Ast::var(&s[0])) } else { Ast::bin(Bin::Xor, Ast::var(&s[i]), carry) })
+            })
+            .collect(),
+    );
+    let inner = Ast::Q(true, s.clone(), Box::new(Ast::bin(Bin::And, Ast::var("Z"), succ)));
+    let step = Ast::Q(true, t.clone(), Box::new(Ast::bin(Bin::And, same, inner)));
+    Ast::fp("Z", false, Ast::bin(Bin::Or, init, step))
+}
